@@ -1,6 +1,6 @@
 #!/bin/sh
-# background sweep: every property's thorough tier, one after the other, against $VERIF_REPO
-for p in C01 C02 C03 C04 C05 C06 C07 C08 C09 C10 C11 C12 C13 C14 C15 C16 C17 C18 C19 C20; do
+# background sweep: every property's thorough tier, one after the other, against $VERIF_REPO (order: $SWEEP_PROPS, default C01..C20)
+for p in ${SWEEP_PROPS:-C01 C02 C03 C04 C05 C06 C07 C08 C09 C10 C11 C12 C13 C14 C15 C16 C17 C18 C19 C20}; do
   start=$(date +%s)
   bin/check $p thorough > sweep-$p.log 2>&1
   echo "$p exit=$? wall=$(( $(date +%s) - start ))s $(grep -c '^VIOLATION' sweep-$p.log) violations; $(tail -1 sweep-$p.log | cut -c1-200)"
